@@ -354,3 +354,49 @@ PROPS["C19"] = dict(
     trusted_base=["ASSUMED (section variables; whether a value can be encoded is an oracle input, decodability is sampled by the tie): encoding/json, encoding/xml; modelled: net/http http.Error / http.Redirect, goutil httpreq.ParseAccept"],
     assumptions=["handlers reach the writer through the context helpers on a fresh response"],
 )
+
+
+def _race_stress(ctx):
+    """C03 extra: build the harness with the race detector and run the concurrent stress; a data race whose stack is inside
+    package rux, or a response that differs from the solo response, is a violation"""
+    import glob, os
+    wd, sh, env = ctx["wd"], ctx["sh"], dict(ctx["goenv"])
+    env["CGO_ENABLED"] = "1"
+    exe = os.path.join(wd, "ruxh-race")
+    rc, out = sh(["go", "build", "-race", "-tags", "verif", "-o", exe, "./cmd/ruxh"], cwd=os.path.join(ctx["root"], "harness"), env=env, timeout=1200)
+    if rc != 0:
+        ctx["notes"].append("race build unavailable (%s): stress run without the race detector" % out.strip().splitlines()[-1:])
+        exe = ctx["exe"]
+    iters = "1500" if ctx["tier"] == "quick" else "40000"
+    env["GORACE"] = "log_path=%s halt_on_error=0" % os.path.join(wd, "race")
+    rc, out = sh([exe, "stress", "-seed", str(ctx["seed"]), "-iters", iters], cwd=wd, env=env, timeout=3000)
+    ctx["stats"]["race_stress"] = out.strip()[-300:]
+    reports = []
+    for f in glob.glob(os.path.join(wd, "race.*")):
+        txt = open(f, errors="replace").read()
+        for blk in txt.split("=================="):
+            if "DATA RACE" in blk and ("/repo/" in blk or "gookit/rux." in blk):
+                reports.append(blk.strip())
+    if reports:
+        first = reports[0]
+        where = [l.strip() for l in first.splitlines() if "/repo/" in l][:2]
+        return dict(signature="data-race-in-router", text="%d race report(s); first at %s" % (len(reports), " / ".join(where)), case="(stress seed %s)" % ctx["seed"], impl=first[:3000])
+    if rc == 3:
+        return dict(signature="concurrent-response-differs-from-solo", text=out.strip()[-400:], case="(stress seed %s)" % ctx["seed"], impl=out.strip()[-400:])
+    if rc != 0:
+        return dict(signature="stress-run-failed", text=out.strip()[-400:], case="(stress)", impl=out[-1000:])
+    return None
+
+PROPS["C03"] = dict(
+    n=dict(quick=400, thorough=6000),
+    consts=[],
+    extra=[("race-stress", _race_stress)],
+    rule="case = router shape from the property's quantifier (0..4 global middleware added in one or several Use calls so that the slice has spare capacity, group and "
+         "route middleware, 2..4 static/dynamic routes, cache off or capacity 0..2, 405 handling) x 2..3 requests (same route, different routes, 404, 405, HEAD) x a "
+         "schedule of 4..40 scheduler decisions; every handler yields to the controlled scheduler at entry, around Next and at exit; each request's trace, parameters "
+         "and response must equal those of the same request served alone on a fresh identical router. Plus a race-detector stress run (8 goroutines x mixed "
+         "requests x 6 router shapes). Non-trivial = distinct case whose global middleware was added in several Use calls.",
+    exhaustive_note="thorough additionally enumerates every schedule of length <= 6 for two requests (static + cached dynamic route) on a router with three Use calls",
+    trusted_base=_RP_TRUSTED + ["NOT modelled: the Go memory model below the model's action granularity, sync.Pool's and sync.RWMutex's own correctness, completeness of the footprint annotations; the race detector run is exploration, not proof"],
+    assumptions=["registration is finished before the first request"],
+)
